@@ -107,7 +107,7 @@ def h2_source(facts, cfg):
 #include <cstring>
 ''' % {'shell_cc': facts.base + cfg.get('suffix', 'Shell') + '.cc'} + MAIN_COMMON + r'''
 using Shell = %(shell_t)s; using Comp = %(comp_t)s;
-static const char* CL[] = {"A", "B", "C"};
+static const char* CL[] = {%(client_ids)s};
 enum St { IDLE = 0, CLAIMING, HOLDING, RELEASING };
 struct Fixture {
   %(user_facilities)s
@@ -219,6 +219,10 @@ int main(int argc, char** argv) {
 ''' % {
         'shell_t': shell_t, 'comp_t': comp_t, 'sns': sns, 'port': p.name, 'cap': p.cap,
         # facilities origin: with 'import' the user owns dispatcher and runtime and publishes them in the locator
+        # client identifiers: short ones around the create shell; around the import shell long ones that share their
+        # first 45 characters
+        'client_ids': ('"plant.hall2.line7.station12.operatorPanel.left", "plant.hall2.line7.station12.operatorPanel.right", '
+                       '"plant.hall2.line7.station12.operatorPanel.middle"') if cfg.get('fac') == 'import' else '"A", "B", "C"',
         'user_facilities': 'dzn::pump user_pump; dzn::runtime user_rt;' if cfg.get('fac') == 'import' else '',
         'publish_facilities': 'loc.set(user_pump).set(user_rt);' if cfg.get('fac') == 'import' else '',
         'find_pump': 'pump = &user_pump;' if cfg.get('fac') == 'import' else 'pump = &sh->Locator().get<dzn::pump>();',
